@@ -132,6 +132,11 @@ def main():
                            "are the <point> values overridden by <coordinates> records in document order (GKFparser::process_point); "
                            "deletion of a single component of a vector / coordinate record cannot be written in the input format, "
                            "those cases are checked for clauses 1 and 2 only (counter deletion_not_expressible)",
+                           "the two-run relation is evaluated when the reduced input is itself free of gross absolute terms in the "
+                           "reference model (deleting directions moves the median orientation of their set: with two blunders in one "
+                           "set what is left can exceed tol-abs anew; counter reduced_input_not_clean, thorough tier only); a blunder "
+                           "of the size of the noise in a direction that stays the median of its set has no attainable misclosure "
+                           "f*tol: the nominal error is written, the oracles judge by the reference misclosure actually present",
                            "comparison of the two runs: coordinates and residuals 2e-6 (m / gon), [pvv] 1e-4 relative, "
                            "stdevs and covariances 1e-4 relative (gama's own linearisation stopping rule is 5e-7 m)"])
 
